@@ -1,4 +1,4 @@
-import PtVerif.Proofs.Neutron
+import PtVerif.Proofs.NeutronComposite
 /-!
 # C17 — the composite SLD calculator equals the direct calculation on the weighted sum
 
